@@ -1,6 +1,8 @@
 package c06
 
 import (
+	"strconv"
+
 	"pgregory.net/rapid"
 	"verifharness/internal/gen"
 )
@@ -21,6 +23,7 @@ type Case struct {
 	Fn    string    `json:"fn,omitempty"`
 	Args  []gen.Val `json:"args,omitempty"`
 	Lower bool      `json:"lower,omitempty"` // write and / or / not in lower case
+	Title bool      `json:"title,omitempty"` // write function names with an initial capital (Abs, Upper): names are case-insensitive
 	Excl  []string  `json:"excl,omitempty"`  // open-finding shapes the generator steered this case away from (shape@ctx: context left out, shape~: rewritten)
 }
 
@@ -39,6 +42,22 @@ type g struct {
 	t *rapid.T
 	// production gates (set from the open findings so that the search avoids confirmed-defect shapes by construction)
 	block map[string]bool
+	// literals of the expression: column values are aimed at them
+	numPool []float64
+	strPool []string
+}
+
+func (s *g) collectLiterals(n *Node) {
+	walk(n, nil, func(x, _ *Node) {
+		switch x.Op {
+		case "num":
+			if f, err := strconv.ParseFloat(x.V, 64); err == nil {
+				s.numPool = append(s.numPool, f)
+			}
+		case "str":
+			s.strPool = append(s.strPool, x.V)
+		}
+	})
 }
 
 func (s *g) pick(label string, n int) int { return rapid.IntRange(0, n-1).Draw(s.t, label) }
@@ -143,7 +162,20 @@ func (s *g) boolean(d int) *Node {
 	if d <= 1 {
 		return col("f", "b")
 	}
-	switch x := s.pick("boolprod", 20); {
+	switch x := s.pick("boolprod", 24); {
+	case x >= 20 && x < 23:
+		return s.fastCmp()
+	case x == 23:
+		// flat chain of column-vs-literal comparisons under one connective (the WHERE compound fast path)
+		op := "and"
+		if s.pick("chainop", 2) == 0 {
+			op = "or"
+		}
+		n := s.fastCmp()
+		for i, m := 0, 1+s.pick("chainlen", 2); i < m; i++ {
+			n = bin(op, "", "b", n, s.fastCmp())
+		}
+		return n
 	case x < 6:
 		return s.cmp(d)
 	case x < 9:
@@ -171,6 +203,15 @@ func (s *g) boolean(d int) *Node {
 	default:
 		return s.callRet("b", d)
 	}
+}
+
+// fastCmp: column OP literal, the shape the WHERE fast path recognises
+func (s *g) fastCmp() *Node {
+	op := s.oneOf("fcmpop", cmpOps)
+	if s.pick("fcmpkind", 3) == 0 {
+		return bin("cmp", op, "b", s.strLeafAnyCol(), strLit(s.oneOf("fstr", strLits)))
+	}
+	return bin("cmp", op, "b", s.numLeafAnyCol(), numLit(s.oneOf("fnum", numLits)))
 }
 
 func (s *g) numLeafAnyCol() *Node {
@@ -257,7 +298,7 @@ func minInt(a, b int) int {
 func (s *g) callRet(t string, d int) *Node {
 	var cands []*fnSpec
 	for _, f := range fnTable {
-		if s.block["fn:"+f.name] {
+		if s.block[f.key()] {
 			continue
 		}
 		if f.ret == t || (f.ret == "x" && t != "b") {
@@ -322,6 +363,8 @@ func (s *g) arg(code, xk string, d int) *Node {
 		return numLit(s.oneOf("i", smallI))
 	case "z":
 		return numLit(s.oneOf("z", nonzeroLits))
+	case "g":
+		return numLit(s.oneOf("g", []string{"2", "10", "3", "2.5"}))
 	case "tn":
 		return strLit(s.oneOf("tn", []string{"int", "float", "bigint"}))
 	case "ts":
@@ -339,12 +382,29 @@ func (s *g) arg(code, xk string, d int) *Node {
 func (s *g) numVal(nonzero bool, label string) gen.Val {
 	for {
 		var v gen.Val
-		switch x := s.pick(label+"kind", 10); {
-		case x < 4:
+		// boundary aiming: a value equal to a numeric literal of the expression, as int or as float64
+		if len(s.numPool) > 0 && s.pick(label+"aim", 4) == 0 {
+			f := s.numPool[s.pick(label+"lit", len(s.numPool))]
+			if f == float64(int64(f)) && s.pick(label+"asint", 2) == 0 {
+				v = gen.Int(int64(f))
+			} else {
+				v = gen.Float(f)
+			}
+			if nonzero && f == 0 {
+				v = gen.Int(1)
+			}
+			return v
+		}
+		switch x := s.pick(label+"kind", 20); {
+		case x < 7:
 			v = gen.Int(int64(rapid.IntRange(-5, 12).Draw(s.t, label+"i")))
-		case x < 8:
+		case x < 14:
 			v = gen.Float(float64(rapid.IntRange(-40, 80).Draw(s.t, label+"q")) / 4)
-		case x == 8:
+		case x == 14:
+			v = gen.Int(int64(rapid.IntRange(-1000000, 1000000).Draw(s.t, label+"bigi")))
+		case x == 15:
+			v = gen.Float(float64(rapid.IntRange(-1000000, 1000000).Draw(s.t, label+"bigf")) / 1000)
+		case x < 18:
 			return gen.Nil()
 		default:
 			return gen.Missing()
@@ -366,6 +426,9 @@ func (s *g) strVal(label string) gen.Val {
 		return gen.Nil()
 	case x == 1:
 		return gen.Missing()
+	}
+	if len(s.strPool) > 0 && s.pick(label+"aim", 4) == 0 {
+		return gen.Str(s.strPool[s.pick(label+"lit", len(s.strPool))])
 	}
 	pool := strVals
 	if !s.ok("oddstrval") {
